@@ -29,7 +29,8 @@ def plain(v, depth=0):
 def selections(L, P):
     rows = [["s", None, None, None], ["i", 0], ["i", -1], ["s", 1, None, None], ["s", None, None, 2], ["s", None, None, -1], ["s", 0, 0, None], ["a", [L - 1, 0]], ["a", [0, 0]], ["m", [k % 2 == 0 for k in range(L)]]]
     cols = [["s", None, None, None], ["i", 0], ["i", -1], ["s", None, None, -1], ["a", [P - 1, 0]], ["m", [k % 2 == 1 or P == 1 for k in range(P)]], ["s", 1, 2, None], ["a", [P - 1]], ["s", None, None, P]]
-    return [["isel", r, c] for r in rows for c in cols]
+    vec = [["vec", [0, L - 1], [0, P - 1]], ["vec", [L - 1], [0]], ["vec", [0, 0, L - 1], [P - 1, 0, 0]]]
+    return [["isel", r, c] for r in rows for c in cols] + vec
 
 
 def plan(tier):
@@ -57,6 +58,14 @@ def plan(tier):
         lay = synth.layout(synth.TYPE_INFO["C*8" if level == "1.1" else "IU2"]["rec"])
         devs = [["img0", "line", f["key"], {"hex": "ff" * f["w"]}, 0] for f in lay.fields if f["kind"] == "B" and "enum" not in f and not f.get("flag") and not f["name"].startswith("preamble.") and f["name"] != "sar_image_data_line_number" and f["name"] not in synth.LINE_CONSTANTS]
         cases.append({"spec": {"level": level, "images": [["HH", None, 2, 2]]}, "devs": devs, "label": f"{level} every 32-bit line field at its maximum on line 0"})
+        # fields the reader reports once per file (flags, ids, codes) that nevertheless change from line to line
+        consts = [f for f in lay.fields if f["name"] in synth.LINE_CONSTANTS and not f["name"].startswith("preamble.")]
+        for f in consts:
+            codes = sorted(f["enum"].values()) if "enum" in f else [0, 1]
+            if len(codes) < 2:
+                continue
+            devs = [["img0", "line", f["key"], {"hex": int(codes[k % len(codes)]).to_bytes(f["w"], "big").hex()}, k] for k in range(3)]
+            cases.append({"spec": {"level": level, "images": [["HH", None, 3, 2]]}, "devs": devs, "label": f"{level} per-file constant {f['key']} differs between lines"})
     return cases
 
 
@@ -130,11 +139,11 @@ def execute(case):
                 except Exception as e:
                     # all selections of this alphabet are valid and none is affected by the xarray findings D13a-c:
                     # a variable that advertises a shape but cannot be loaded violates the declared-vs-loaded clause
-                    bad("declared-but-unloadable-selection", f"{op}: declared {ddtype}{dshape}, loading raises {type(e).__name__}: {str(e)[:80]}", cls=op[1][0] + op[2][0])
+                    bad("declared-but-unloadable-selection", f"{op}: declared {ddtype}{dshape}, loading raises {type(e).__name__}: {str(e)[:80]}", cls=str(op[1][0])[0] + str(op[2][0])[0])
                     continue
                 n_sel += 1
                 if vals.shape != dshape or not isinstance(ddtype, np.dtype) or vals.dtype.newbyteorder("=") != ddtype.newbyteorder("="):
-                    bad("declared-vs-loaded-selection", f"{op}: declared {ddtype}{dshape}, loaded {vals.dtype}{vals.shape}", cls=op[1][0] + op[2][0])
+                    bad("declared-vs-loaded-selection", f"{op}: declared {ddtype}{dshape}, loaded {vals.dtype}{vals.shape}", cls=str(op[1][0])[0] + str(op[2][0])[0])
     return {"ok": not fails, "failures": fails, "outcome": "ok" if not fails else fails[0]["sig"]["kind"], "nontrivial": True, "n_vars": n_vars, "n_attrs": n_attrs, "n_sel": n_sel}
 
 
